@@ -2,6 +2,7 @@ import NgVerif.Generated.Exprs
 import NgVerif.Model.Coords
 import NgVerif.Model.Tiling
 import NgVerif.Model.Shard
+import NgVerif.Model.Pyramid
 import Mathlib.Tactic.Push
 import Mathlib.Tactic.NormNum
 import Mathlib.Tactic.Tauto
@@ -51,5 +52,31 @@ theorem nextCmc_eq_model (m s p masked n : Nat) :
     Src.nextCmc (appended := n) (preshift_bits := p) (shard_bits := s) (minishard_bits := m)
       (masked_bits := masked) (preshift_mask := 2 ^ p - 1) = Shard.nextId m s p masked n := by
   simp only [Src.nextCmc, Shard.nextId]
+
+/-- the loop bounds of `convert_chunks_for_scale` as written in the source are the ranges of the model's grid -/
+theorem cvtBounds_eq_model (s c i : Nat) :
+    Src.cvtLowerX (chunk_size_0 := c) (x_idx := i) = ((c * i : Nat) : Int) ∧
+    Src.cvtUpperX (chunk_size_0 := c) (x_idx := i) (size_0 := s) = ((min (c * (i + 1)) s : Nat) : Int) ∧
+    Src.cvtUpperZ (chunk_size_2 := c) (z_idx := i) (size_2 := s) = ((min (c * (i + 1)) s : Nat) : Int) := by
+  simp only [Src.cvtLowerX, Src.cvtUpperX, Src.cvtUpperZ]
+  push_cast
+  exact ⟨rfl, rfl, rfl⟩
+
+/-- `half_chunk` and `chunk_fetch_factor` of `compute_dyadic_downscaling` as written in the source are the
+    model's `half` and `fetch` of the axis -/
+theorem pyramid_arith_eq_model (a : Pyramid.Axis) :
+    Src.pyrHalfChunk (osz := a.oc) (f := Pyramid.factor a) = ((Pyramid.half a : Nat) : Int) ∧
+    Src.pyrFetchFactor (nsz := a.nc) (hc := Pyramid.half a) = ((Pyramid.fetch a : Nat) : Int) := by
+  simp only [Src.pyrHalfChunk, Src.pyrFetchFactor, Pyramid.half, Pyramid.fetch]
+  push_cast
+  exact ⟨rfl, rfl⟩
+
+/-- the per-axis chunk count of `scale-stats` as written in the source is the model's `Tiling.count` -/
+theorem statsCount_eq_model (s c : Nat) (hs : 1 ≤ s) :
+    Src.statsChunksPerAxis (s := s) (cs := c) = ((Tiling.count s c : Nat) : Int) := by
+  simp only [Src.statsChunksPerAxis, Tiling.count]
+  push_cast
+  have : ((s - 1 : Nat) : Int) = (s : Int) - 1 := by omega
+  rw [this]
 
 end NgVerif.Source
